@@ -13,7 +13,7 @@ from ..descriptors import arm_descriptors, ArmWalker, Descriptor, self_names_of,
 from ..effects import external_effects
 from ..py_frontend import dotted, call_name, calls_under, walk, is_name, src, pmatch
 from .common import (short, inst, live_funcs, calls_in, callee_func, member_path, enclosing_map,
-                     ancestors, kind_switches, local_inits, strip_casts, ALL_KINDS, if_outcome)
+                     ancestors, kind_switches, local_inits, strip_casts, ALL_KINDS, if_outcome, unnegate)
 
 CONTAINER_KINDS = ['Tuple', 'List', 'Dict', 'NamedTuple', 'OrderedDict', 'DefaultDict', 'Deque',
                    'StructSequence', 'Custom']
@@ -1045,3 +1045,57 @@ def n2(ctx):
                       'some: the node count reported to the parent is wrong for a subtree with more '
                       'than one node' % (inst(f), cfg.nodes[early[0]].ast.text(3) if early else '?'),
                       cfg.nodes[early[0]].ast.loc if early else f.loc)
+
+
+@rule('N2w', floor=3, title='paths() / accessors() take a shortcut only for a leafless or single-node treespec')
+def n2w(ctx):
+    """`PyTreeSpec::Paths` / `Accessors` may answer without walking the nodes in two cases: no leaves
+    (empty answer) or a treespec that is one single node.  Every return that is not preceded by the
+    walk must sit on the "equal" outcome of `GetNumLeaves() == 0` or of `GetNumNodes() == 1`: a
+    shortcut taken for a one-leaf treespec with several nodes (`[x]`, `{'a': x}`) answers with the
+    empty path."""
+    prog = ctx.cxx()
+    from ..cfg import cfg_of as _cfg, const_eval as ce
+    from .common import local_inits as _li
+    n = 0
+    for name, impl in (('PyTreeSpec::Paths', 'PathsImpl'), ('PyTreeSpec::Accessors', 'AccessorsImpl')):
+        f = prog.one(name)
+        cfg = _cfg(f)
+        inits = _li(f)
+        walks = [cfg.cnode_of(c) for c in calls_in(f.body, {impl})]
+        ctx.require(walks and None not in walks, '%s: call of %s not found' % (name, impl))
+
+        def source(e):
+            e = strip_casts(e)
+            t = e.text(5) if e is not None else ''
+            p = member_path(e) if e is not None else None
+            if p in inits:
+                t = inits[p].text(5)
+            return 'leaves' if 'GetNumLeaves' in t else ('nodes' if 'GetNumNodes' in t else None)
+        facts = []
+        for cn in cfg.nodes:
+            if cn.kind != 'cond' or cn.ast is None:
+                continue
+            a, pos = unnegate(cn.ast)
+            if a is None or a.kind != 'BinaryOperator' or a.op not in ('==', '!=') or len(a.kids) != 2:
+                continue
+            what, val = source(a.kids[0]), ce(strip_casts(a.kids[1]))
+            if (what, val) in (('leaves', 0), ('nodes', 1)):
+                eq_edge = ((a.op == '==') == pos)
+                facts.append((cn, eq_edge, '%s == %d' % (what, val)))
+        for rn in [x for x in cfg.nodes if x.kind == 'return']:
+            if any(cfg.dominates(w, rn.idx) for w in walks):
+                continue
+            n += 1
+            ok = False
+            for cn, eq_edge, _ in facts:
+                yes = cfg.forward_reachable([w for (w, lab) in cfg.succ[cn.idx] if lab is eq_edge])
+                no = cfg.forward_reachable([w for (w, lab) in cfg.succ[cn.idx] if lab is (not eq_edge)])
+                if rn.idx in yes and rn.idx not in no:
+                    ok = True
+            ctx.check('%s/shortcut@%s' % (short(f).split('::')[-1], rn.ast.line if rn.ast is not None else '?'), ok,
+                      '%s: the return without a walk is taken only when the treespec has no leaves or is a single node' % inst(f),
+                      '%s returns without walking the nodes on an outcome other than "no leaves" / "one single node": '
+                      'a one-leaf treespec with several nodes gets the empty path' % inst(f),
+                      rn.ast.loc if rn.ast is not None else f.loc)
+    ctx.require(n >= 3, 'only %d shortcut returns found in Paths / Accessors' % n)
